@@ -12,6 +12,8 @@ const C09_POSITIONS: &[&str] = &[
     // secondary positions: the same names reached through other code paths of the derive
     "field_type", "field_as", "field_optional", "field_inline", "variant_internal_struct", "variant_internal_unit",
     "variant_adjacent_tuple", "variant_external_struct", "field_tuple_struct_variant_internal",
+    // a variant's own rename_all is about its fields: its name follows the enum's rule (or none)
+    "variant_own_rename_all", "variant_beside_own_rename_all",
 ];
 /// the first C09_PRIMARY positions are enumerated over all identifiers; the others over the
 /// identifiers up to length 3, the extra list and the random part
@@ -52,6 +54,11 @@ fn c09_item(position: &str, rule: &str, ident: &str, serde_spelling: bool) -> St
         "variant_adjacent_tuple" => format!("#[{attr}(tag = \"Zq9tag\", content = \"Zq9content\", rename_all = \"{rule}\")] enum Zq9Container {{ {ident}(i32, String), Zz9Other }}"),
         "variant_external_struct" => format!("#[{attr}(rename_all = \"{rule}\")] enum Zq9Container {{ {ident} {{ plain_other: i32 }}, Zz9Other(i32) }}"),
         "field_tuple_struct_variant_internal" => format!("#[{attr}(tag = \"Zq9tag\", rename_all_fields = \"{rule}\")] enum Zq9Container {{ Vv {{ {ident}: i32 }}, Ww }}"),
+        "variant_own_rename_all" => format!("enum Zq9Container {{ #[{attr}(rename_all = \"{rule}\")] {ident} {{ plain_other: i32 }}, Zz9Other(i32) }}"),
+        "variant_beside_own_rename_all" => {
+            let other = C09_RULES[(C09_RULES.iter().position(|r| *r == rule).unwrap_or(0) + 3) % C09_RULES.len()];
+            format!("#[{attr}(rename_all = \"{rule}\")] enum Zq9Container {{ #[{attr}(rename_all = \"{other}\")] {ident} {{ plain_other: i32 }}, Zz9Other(i32) }}")
+        }
         _ => unreachable!(),
     }
 }
@@ -63,6 +70,9 @@ fn c09_is_variant_position(position: &str) -> bool {
 /// `None`: serde_derive itself panics on this identifier (the program does not derive serde).
 fn c09_expected(position: &str, rule: &str, ident: &str) -> Option<String> {
     let name = ident.strip_prefix("r#").unwrap_or(ident).to_string();
+    if position == "variant_own_rename_all" {
+        return Some(name);
+    }
     let rule = match serde_case::RenameRule::from_str(rule) {
         Ok(r) => r,
         Err(_) => return None,
